@@ -420,7 +420,6 @@ def check_case(ctx, case, idx=None):
     base = {"case": idx, "format": fmt, "values": case["values"], "expected(original)": t0,
             "observed(flattened)": t1, "observed(json)": t2, "recipe": case}
     override = {}
-    unexplained = False
     for i, f in enumerate(case["fields"]):
         a, b, c = three(case, ftext(f))
         if a == b == c:
@@ -432,12 +431,12 @@ def check_case(ctx, case, idx=None):
                               "(the original formats it)", w)
                 override[i] = "M"
                 continue
-            unexplained = True
             override[i] = "M"
+            ctx.violation("flatten-text-mismatch" if a != b else "json-text-mismatch",
+                          "a mid-path-call field formats differently after flattening/JSON, but not by flattenEvent raising on the '()' name", w)
             continue
         ex = explain_field(case, f)
         if ex is None:
-            unexplained = True
             override[i] = "U"
             ctx.violation("flatten-text-mismatch" if a != b else "json-text-mismatch",
                           "a single field formats differently after flattening/JSON and none of the known features explains it", w)
@@ -452,7 +451,7 @@ def check_case(ctx, case, idx=None):
     # residue: with every culprit neutralised the whole format must agree (repeated keys, literals, ...)
     r0, r1, r2 = three(case, render(case, override))
     ctx.count("residue_checks")
-    if not (r0 == r1 == r2) or unexplained and not ctx.violations:
+    if not (r0 == r1 == r2):
         ctx.violation("flatten-text-mismatch" if r0 != r1 else "json-text-mismatch",
                       "event formats differently after flattening / JSON round trip (not explained by per-field defects)",
                       dict(base, neutralised_format=render(case, override), neutralised_original=r0, neutralised_flattened=r1, neutralised_json=r2))
